@@ -383,7 +383,7 @@ func (fa *Facts) predicateSummary(callee *ssa.Function, call *ssa.Call, o *Origi
 	if b, ok := res.At(0).Type().Underlying().(*types.Basic); !ok || b.Kind() != types.Bool {
 		return nil
 	}
-	if len(callee.Blocks) > 40 {
+	if len(callee.Blocks) > 40 || !isPureFn(callee, 0) {
 		return nil
 	}
 	for _, b := range callee.Blocks {
@@ -391,9 +391,14 @@ func (fa *Facts) predicateSummary(callee *ssa.Function, call *ssa.Call, o *Origi
 			return nil
 		}
 		for _, in := range b.Instrs {
-			switch in.(type) {
-			case *ssa.Panic, *ssa.Go, *ssa.Defer, *ssa.Store, *ssa.MapUpdate, *ssa.Send:
+			switch x := in.(type) {
+			case *ssa.Panic, *ssa.Go, *ssa.Defer, *ssa.MapUpdate, *ssa.Send:
 				return nil
+			case *ssa.Store:
+				// stores into locals (spilled parameters, composite literals) are fine; anything else is an effect
+				if al, _ := rootAlloc(x.Addr); al == nil {
+					return nil
+				}
 			}
 		}
 	}
